@@ -140,6 +140,12 @@ def verify_block(ex, fi, c, name, label=None):
             elif kind == 'raise' and val in may:
                 if isinstance(may[val], str) and may[val] != 'True':
                     ex.oblige(s, f'{lab}/may_raise[{val}].if', eval_clause(ex, st, may[val], scx), kind='raises-iff')
+            elif kind == 'return' and 'on_return' in spec:
+                # the block may leave the function: what then holds of the returned value and the state
+                s2 = s.setvar('result', val)
+                for i, cl in enumerate(spec['on_return']):
+                    ex.oblige(s2, f'{lab}/on_return[{i}]', eval_clause(ex, s2, cl, scx), kind='ensures', info=dict(clause=cl))
+                block_frame_check(ex, st, s, spec, cx, lab)
             else:
                 ex.oblige(s, f'{lab}/unexpected[{kind}:{val}]', z3.BoolVal(False), kind='absence')
         add_global_axioms(ex)
@@ -172,6 +178,10 @@ def verify_function(ex, fi, c, label=None, chunk=None, block=None):
         return verify_block(ex, fi, c, block, label)
     allobs = []
     err = None
+    if c.cases and (chunk is None or chunk[0] == 0):
+        obs, e = cases_cover(ex, fi, c, label)
+        allobs += obs
+        err = err or e
     for case in case_list(c, chunk):
         obs, e = verify_one(ex, fi, c, label, case)
         if case:
@@ -181,6 +191,39 @@ def verify_function(ex, fi, c, label=None, chunk=None, block=None):
         err = err or e
     ex.obs = allobs
     return allobs, err
+
+
+def cases_cover(ex, fi, c, label=None):
+    """The top-level case split must be exhaustive under the precondition (one obligation)."""
+    ex.cur_fn = fi.key
+    ex.cur_contract = c
+    ex.cur_fi = fi
+    ex.obs = []
+    lab = label or c.name or short(fi.key)
+    cx = Cx(fi, spec=False, depth=0, contract=c, label=lab)
+    scx = cx.as_spec()
+    try:
+        st = initial_state(ex, fi, c, cx)
+        for r in c.requires:
+            st = st.assume(eval_clause(ex, st, r, scx))
+        alts = []
+        for case in case_list(c):
+            eqs = []
+            for name, val in case.items():
+                cur = ex.pure(st, ast.parse(name, mode='eval').body, scx)
+                if isinstance(val, bool):
+                    eqs.append(ex.truth(st, cur) == z3.BoolVal(val))
+                elif isinstance(val, int):
+                    eqs.append(ex.coerce(cur, INT).z == I(val))
+                else:
+                    eqs.append(cur.z == z3.StringVal(val))
+            alts.append(z3.And(eqs))
+        ex.oblige(st, f'{lab}/cases.exhaustive', z3.Or(alts), kind='ensures',
+                  info=dict(clause='the case split covers every state allowed by the precondition'))
+        add_global_axioms(ex)
+        return ex.obs, None
+    except VCError as e:
+        return ex.obs, str(e)
 
 
 def verify_one(ex, fi, c, label=None, case=None):
